@@ -262,6 +262,35 @@ func c16Scenario(t *rapid.T, w *World, p *Profile) {
 		httpDo(w, id, "HEAD", url, nil, "")
 		answerAllOK(w)
 	}
+	// a GET and a HEAD of a resource whose own get request is answered with a
+	// drawn error: HEAD is handled exactly as GET, whatever the error is
+	if rapid.IntRange(0, 2).Draw(t, "rooterr") == 0 {
+		rid := rapid.SampledFrom(rids).Draw(t, "rooterrrid")
+		name, _ := splitRID(rid)
+		code := rapid.SampledFrom([]string{"system.methodNotFound", "system.internalError", "system.accessDenied", "system.invalidParams", "custom.code", "system.timeout", "system.notFound"}).Draw(t, "rooterrcode")
+		pth, q := ridToPath(rid)
+		url := api + pth
+		if q != "" {
+			url += "?" + q
+		}
+		url += map[bool]string{true: "&", false: "?"}[q != ""] + "rooterr=1" // a URL of its own for the pair
+		for _, method := range []string{"GET", "HEAD"} {
+			id++
+			w.Exec(Op{K: "http", C: id, M: method, S: url, Key: "c16:rooterr"})
+			for i := 0; i < 40; i++ {
+				ps := w.PendingSorted()
+				if len(ps) == 0 {
+					break
+				}
+				pv := ps[0]
+				op := Op{K: "ans", S: pv.P.Subject, Q: pv.P.Query, A: actorEnc(pv.Actor), N: pv.Ord, O: "ok"}
+				if pv.P.Subject == "get."+name {
+					op.O, op.P = "err", code
+				}
+				w.Exec(op)
+			}
+		}
+	}
 	// POST: result verbatim, 204 for null, Location for resource responses
 	if rapid.Bool().Draw(t, "post") {
 		kind := rapid.SampledFrom([]string{"result", "null", "resource"}).Draw(t, "postkind")
@@ -368,6 +397,11 @@ func (m *MonC16) OnEnd(w *World) []Violation {
 		switch h.Method {
 		case "GET":
 			byURL[h.URL] = h
+			if strings.Contains(h.URL, "rooterr=1") {
+				// the pair with a failing root: only HEAD against GET is compared
+				m.class("root_error_pair")
+				continue
+			}
 			rid, _, ok := refHTTPTarget(h.URL, api, "GET")
 			if !ok {
 				continue
